@@ -379,7 +379,29 @@ def interval_branch(fn_name):
     return rows
 
 
-GROUPS = ["cancel", "mismatch", "exit", "setdef", "escape", "signals", "sighandler", "termchild", "termexit", "delayloop", "drainloop", "drainexit", "mainloop", "interval", "placeholders", "xml"]
+def drain_always():
+    """executor.rs: the pipes of an exited process are always read to the end (or to the leak timeout) — `detect_fd_leaks` is
+    called unconditionally after both main loops and has no way out other than its loop's `break`s."""
+    src = strip_comments(read("nextest-runner/src/runner/executor.rs"))
+    def fn_body(name):
+        m = re.search(r"async fn " + name + r"\b", src)
+        if not m: raise RuntimeError(f"{name} not found")
+        body = src[m.end():]
+        nxt = re.search(r"\n(?:    )?(?:pub(?:\(\w+\))? )?(?:async )?fn \w+", body)
+        return re.sub(r"\s+", " ", body[:nxt.start()] if nxt else body)
+    rows = []
+    d = fn_body("detect_fd_leaks")
+    rows.append(("detect_fd_leaks: no return statement", " return " not in d and "return;" not in d))
+    pre = d[d.index("{") + 1:d.index(" loop {")].strip() if " loop {" in d else "?"
+    rows.append(("detect_fd_leaks: nothing but the timer before its loop", re.fullmatch(r"let mut sleep = std::pin::pin!\(crate::time::pausable_sleep\(leak_timeout\)\);", pre) is not None))
+    for name in ("run_test_inner", "run_setup_script_inner"):
+        b = fn_body(name)
+        rows.append((f"{name}: detect_fd_leaks called unconditionally after the loop",
+                     re.search(r"let tentative_status = status\.or_else\(.*?\}\); let leaked = detect_fd_leaks\( [^;]*?\) ?\.await; \(res, leaked\)", b) is not None))
+    return rows
+
+
+GROUPS = ["cancel", "mismatch", "exit", "setdef", "escape", "signals", "sighandler", "termchild", "termexit", "delayloop", "drainloop", "drainexit", "drainalways", "mainloop", "interval", "placeholders", "xml"]
 
 
 def group_lines(g):
@@ -447,6 +469,10 @@ def group_lines(g):
         return ["/-- executor.rs: the branch taken when a slow-timeout period runs out, in the test loop and in the setup-script loop -/",
                 f"def testIntervalBranch : List (String × List String) := {lean_arm(interval_branch('run_test_inner'))}",
                 f"def scriptIntervalBranch : List (String × List String) := {lean_arm(interval_branch('run_setup_script_inner'))}"]
+    if g == "drainalways":
+        rows = drain_always()
+        return ["/-- executor.rs: structural facts about the draining of an exited process's pipes -/",
+                "def drainAlways : List (String × Bool) := [" + ", ".join(f'("{a}", {"true" if b else "false"})' for a, b in rows) + "]"]
     if g == "mainloop":
         keys = {"Stop": r"SignalRequest::Stop\(\w+\)", "Continue": r"SignalRequest::Continue"}
         arms = request_arms(strip_comments(read("nextest-runner/src/runner/executor.rs")), "handle_signal_request", keys)
